@@ -15,6 +15,8 @@ pub trait KKTSolver<T: FloatT>: HasLinearSolverInfo {
     ) -> bool;
     fn update_P(&mut self, P: &CscMatrix<T>);
     fn update_A(&mut self, A: &CscMatrix<T>);
+    #[cfg(feature = "verif")]
+    fn verif_snapshot(&self) -> crate::verif::KktSnapshot<T>;
 }
 
 pub trait HasLinearSolverInfo {
